@@ -133,6 +133,41 @@ func runC04Bulk(env *Env, rc *RunCtx) {
 		}
 		ds = append(ds, Delta{Insert: true, T: x})
 	}
+	// first the same request with ONE entry that names an unknown namespace - at
+	// the end, in the middle, or just past the first thousand: it is rejected and
+	// nothing of it is stored, however the server slices large requests
+	if t.Bool(1, 2) {
+		k := n
+		if k > 4000 {
+			k = 4000
+		}
+		bad := append([]Delta(nil), ds[:k]...)
+		pos := []int{k - 1, k / 2, 1000}[t.Choose(3)]
+		if pos >= k {
+			pos = k - 1
+		}
+		bad[pos].T.NS = "nope"
+		var r Resp
+		via := "transact"
+		if t.Bool(1, 2) {
+			via = "patch"
+			r = sys.Patch(bad)
+		} else {
+			r = sys.Transact(bad)
+		}
+		rc.Rec.Execs++
+		hist = append(hist, fmt.Sprintf("%s of %d relationships, entry %d names an unknown namespace -> %s", via, k, pos, r))
+		if r.OK() {
+			rc.Violate("invalid-accepted", via, hist[len(hist)-1], w(), -1, nil)
+			return
+		}
+		_, all, _ := sys.ListAll(Query{}, 0, true)
+		if len(all) != 0 {
+			rc.Violate("failed-op-changed-state", via, fmt.Sprintf("%s: %d relationships are stored afterwards", hist[len(hist)-1], len(all)), w(), -1, nil)
+			return
+		}
+		rc.Count("probe_bulk_write_with_one_invalid_entry", 1)
+	}
 	for i := 0; i < len(ds); i += 4000 {
 		j := i + 4000
 		if j > len(ds) {
